@@ -935,6 +935,7 @@ impl ServerSession {
         if data.len() < 2 {
             // We are expecting a "onMetaData" value and then a property with the actual metadata.  Since
             // this wasn't provided we don't know how to deal with this message.
+            return Ok(Vec::new());
         }
 
         match data[0] {
